@@ -103,7 +103,17 @@ def run_case(case):
 
     def add(kind, msg, mech):
         viol.append({'kind': kind, 'mech': mech, 'msg': '%r: %s' % (cfg, msg), 'config': cfg})
-    for di in range(ndumps):
+    # 'prebuilt': every dump_to_sql step of the history is CONSTRUCTED before the first one runs (flows defined up front,
+    # run later): what a step learned about the database when it was built may be stale when it runs
+    prebuilt = rng.random() < 0.3
+    cfg['steps_built_up_front'] = prebuilt
+    saved_rng = rng.getstate()
+    built = {}
+    for phase in (['plan', 'run'] if prebuilt else ['run']):
+      rng.setstate(saved_rng)
+      model, model2, modes = [], [], []
+      cfg['dumps'] = []
+      for di in range(ndumps):
         mode = rng.choice(['rewrite', 'append', 'update', 'update'])
         nrows = rng.choice([0, 1, 3, 8, 30])
         existing = [keyof(r) for r in model]
@@ -177,18 +187,25 @@ def run_case(case):
         tables_cfg = {'tbl': table}
         rows2 = bystander = None
         if two_tables:
-            rows2 = [{'k1': rng.randint(0, 5), 'name': 'o%d-%d' % (di, i)} for i in range(rng.choice([0, 2, 5]))]
-            bystander = [{'k1': i, 'name': 'by%d' % i} for i in range(3)]
-            f2 = gen.schema_fields([('k1', 'integer'), ('name', 'string')])
+            rows2 = [{'k1': rng.randint(0, 5), 'name': 'o%d-%d' % (di, i), 'arr': rng.choice([[1, 'x'], [], None]),
+                      'obj': rng.choice([{'a': [1]}, {}, None])} for i in range(rng.choice([0, 2, 5]))]
+            bystander = [{'k1': i, 'name': 'by%d' % i, 'arr': [i], 'obj': {'i': i}} for i in range(3)]
+            f2 = gen.schema_fields([('k1', 'integer'), ('name', 'string'), ('arr', 'array'), ('obj', 'object')])
             steps += [lab.source('other', f2, rows2), lab.source('bystander', f2, bystander)]
             tables_cfg['tbl2'] = {'resource-name': 'other', 'mode': 'append'}
             model2.extend(dict(r) for r in rows2)
         try:
-            with boot.quiet():
-                step = d.dump_to_sql(tables_cfg, engine=engine, **kw)
+            if phase == 'run' and prebuilt:
+                step = built[di]
+            else:
+                with boot.quiet():
+                    step = d.dump_to_sql(tables_cfg, engine=engine, **kw)
         except Exception as e:
             add('dump_construct', 'dump %d: %s' % (di, e), 'construct')
             break
+        if phase == 'plan':
+            built[di] = step
+            continue
         out = lab.run(steps + [step], validate=False)
         # engine cleanup (file handles)
         try:
@@ -220,16 +237,19 @@ def run_case(case):
                             'updated_flag/%s%s' % (mode, '/dup_in_dump' if [keyof(x) for x in rows[:i]].count(keyof(a)) else ''))
                         break
         if two_tables:
+            def k2(r):
+                return (r['k1'], r['name'], norm_db(r.get('arr'), 'array'), norm_db(r.get('obj'), 'object'))
             if len(out.results) != 3 or lab.rows_diff(bystander, out.results[2]) or \
-                    [(r['k1'], r['name']) for r in out.results[1]] != [(r['k1'], r['name']) for r in rows2]:
+                    [k2(r) for r in out.results[1]] != [k2(r) for r in rows2]:
                 add('downstream_other', 'dump %d: rows of the other resources changed downstream' % di, 'downstream_other')
             con2 = sqlite3.connect(dbfile)
             try:
-                got2 = sorted(con2.execute('SELECT k1, name FROM tbl2').fetchall())
+                got2 = sorted(((a, b, norm_db(c, 'array'), norm_db(e, 'object')) for a, b, c, e in
+                               con2.execute('SELECT k1, name, arr, obj FROM tbl2').fetchall()), key=repr)
                 names = [r[0] for r in con2.execute("SELECT name FROM sqlite_master WHERE type='table'").fetchall()]
             finally:
                 con2.close()
-            if got2 != sorted((r['k1'], r['name']) for r in model2):
+            if got2 != sorted((k2(r) for r in model2), key=repr):
                 add('second_table', 'dump %d: second table holds %d rows, model %d' % (di, len(got2), len(model2)),
                     'second_table')
             if 'bystander' in names or len([n for n in names if n.startswith('tbl')]) != 2:
